@@ -209,6 +209,7 @@ static htp_status_t htp_connp_res_buffer(htp_connp_t *connp) {
     }
 
     if (newlen > connp->out_tx->cfg->field_limit_hard) {
+        HTP_VERIF_PROBE("res.buf.limit", connp, newlen, connp->out_tx->cfg->field_limit_hard);
         htp_log(connp, HTP_LOG_MARK, HTP_LOG_ERROR, 0, "Response the buffer limit: size %zd limit %zd.",
                 newlen, connp->out_tx->cfg->field_limit_hard);
         return HTP_ERROR;
@@ -457,6 +458,7 @@ htp_status_t htp_connp_RES_BODY_CHUNKED_LENGTH(htp_connp_t *connp) {
                 connp->out_state = htp_connp_RES_BODY_IDENTITY_STREAM_CLOSE;
                 connp->out_tx->response_transfer_coding = HTP_CODING_IDENTITY;
 
+                HTP_VERIF_PROBE("res.chunklen.invalid", connp, len, connp->out_chunked_length);
                 htp_log(connp, HTP_LOG_MARK, HTP_LOG_ERROR, 0,
                         "Response chunk encoding: Invalid chunk length: %"PRId64"",
                         connp->out_chunked_length);
@@ -894,6 +896,7 @@ htp_status_t htp_connp_RES_HEADERS(htp_connp_t *connp) {
                     endwithcr = 1;
                 } else if (connp->out_next_byte == CR) {
                     // hanldes LF-CR sequence as end of line
+                    HTP_VERIF_PROBE("res.hdr.lf_then_cr", connp, connp->out_current_read_offset, connp->out_current_len);
                     OUT_COPY_BYTE_OR_RETURN(connp);
                     lfcrending = 1;
                 }
@@ -974,6 +977,7 @@ htp_status_t htp_connp_RES_HEADERS(htp_connp_t *connp) {
 
                 OUT_PEEK_NEXT(connp);
 
+                if (connp->out_next_byte == -1) HTP_VERIF_PROBE("res.hdr.fold_peek_eoc", connp, len, 0);
                 if (connp->out_next_byte != -1 && htp_is_folding_char(connp->out_next_byte) == 0) {
                     // Because we know this header is not folded, we can process the buffer straight away.
                     if (connp->cfg->process_response_header(connp, data, len) != HTP_OK) return HTP_ERROR;
@@ -1030,6 +1034,7 @@ htp_status_t htp_connp_RES_HEADERS(htp_connp_t *connp) {
                                 return HTP_ERROR;
                             connp->out_header = new_out_header;
                         } else {
+                            HTP_VERIF_PROBE("res.hdr.fold_cap", connp, bstr_len(connp->out_header), len);
                             htp_log(connp, HTP_LOG_MARK, HTP_LOG_WARNING, 0, "Response field length exceeds folded maximum");
                         }
                     }
@@ -1137,6 +1142,7 @@ htp_status_t htp_connp_RES_LINE(htp_connp_t *connp) {
                 connp->out_tx->response_content_encoding_processing = HTP_COMPRESSION_NONE;
 
                 connp->out_current_consume_offset = connp->out_current_read_offset;
+                HTP_VERIF_PROBE("res.line.as_body", connp, len + chomp_result, connp->out_tx->response_progress);
                 htp_status_t rc = htp_tx_res_process_body_data_ex(connp->out_tx, data, len + chomp_result);
                 htp_connp_res_clear_buffer(connp);
                 if (rc != HTP_OK) return rc;
@@ -1214,12 +1220,14 @@ htp_status_t htp_connp_RES_FINALIZE(htp_connp_t *connp) {
     if (htp_treat_response_line_as_body(data, bytes_left)) {
         // Interpret remaining bytes as body data
         htp_log(connp, HTP_LOG_MARK, HTP_LOG_WARNING, 0, "Unexpected response body");
+        HTP_VERIF_PROBE("res.finalize.as_body", connp, bytes_left, connp->out_tx->response_progress);
         htp_status_t rc = htp_tx_res_process_body_data_ex(connp->out_tx, data, bytes_left);
         htp_connp_res_clear_buffer(connp);
         return rc;
     }
 
     //unread last end of line so that RES_LINE works
+    HTP_VERIF_PROBE("res.finalize.unread", connp, bytes_left, connp->out_buf_size);
     int64_t unread = (int64_t)bytes_left;
     if (connp->out_current_read_offset < unread) {
         unread = connp->out_current_read_offset;
